@@ -8,7 +8,7 @@ From FV Require Import Lib.RustInt.
 Import ListNotations.
 Open Scope Z_scope.
 
-Definition pair := (Z * Z)%type.          (* (char as u32, GlyphId as u32) *)
+Notation pair := (Z * Z)%type (only parsing).          (* (char as u32, GlyphId as u32) *)
 
 (* ================================================================================ *)
 (*                                   WRITER                                         *)
